@@ -1,5 +1,22 @@
+import hashlib as _hl17, os as _os17
+
+_verif17 = _os17.path.dirname(_os17.path.dirname(_os17.path.dirname(_os17.path.abspath(__file__))))
+
+
+def _tools_digest17():
+    # the harness compiles $GV_REPO/tools/IntersectTool.cpp and GeodesicProj.cpp into itself: the harness cache key must depend on their text
+    h = _hl17.sha256()
+    for f in ("IntersectTool.cpp", "GeodesicProj.cpp"):
+        try:
+            h.update(open(_os17.path.join(_os17.environ.get("GV_REPO", "/repo"), "tools", f), "rb").read())
+        except OSError:
+            h.update(b"missing:" + f.encode())
+    return h.hexdigest()[:16]
+
+
 PROPS["C17"] = dict(
     harnesses=[dict(name="C17", procs_quick=4, procs_thorough=16, timeout=3000,
+                    extra=["-I" + _os17.path.join(_verif17, "harness", "C17_tools"), "-DGV_TOOLS_DIGEST=0x" + _tools_digest17()],
                     env={"ASAN_OPTIONS": "detect_leaks=0:abort_on_error=0:allocator_may_return_null=1"})],
     gens=["gen_intersect"],
     rule=("NearestNeighbor (dist_t = long long, exact): point sets of size 0…2000 from five metrics — L1 on a 9×9 grid (duplicates, ties), L1 on a 1000² grid, "
